@@ -1,13 +1,15 @@
 (* C11 model runner.  One class per line, an s-expression:
-     (class NAME (specs SPEC...) (funcs (NAME KIND)...) (fields F...) (methods (NAME PARAM (STMT...))...)
-            (globals G...) (calls (M V)...))
+     (class NAME (decls D...) (specs SPEC...) (funcs (NAME KIND)...) (fields F...) (methods (NAME PARAM (STMT...))...)
+            (globals G...) (calls (O M V)...))
+     D = import | const | type | var | func : the top-level declarations of the class file in order (var = the block SPEC...)
+     O = a | b : the instance the call goes to (a := &K{firstfield: 1}, b := new(K))
      SPEC = (starsel PKG T TAG) | (sel PKG T TAG) | (star T TAG) | (ids (A B...) TYP TAG)     TYP/TAG = - | hex
      KIND = plain | static | (recv R)
      STMT = (assign X E) | (thisassign F E) | (define X E) | (print E) | (expr E) | (if E (STMT...) (STMT...)) | (return E)
      E    = INT | (id X) | (this F) | (add E E) | (mul E E) | (lt E E) | (call M E) | (thiscall M E)
    Output: FIELDS=name:emb:typehex:taghex,...  FUNCS=name/recvname/recvtype,...
            CLS=<hex of the class-form method source>  EXPL=<hex of the explicit-form method source for type NAME^"X">
-           RUNC=<outcome>  RUNX=<outcome>  RUND=<outcome of the environment-based evaluator>     outcome = V:rets|trace|fields|globals  or  U  or  F *)
+           RUNC=<outcome>  RUNX=<outcome>  RUND=<outcome of the environment-based evaluator>     outcome = V:rets|trace|fields of a|fields of b|globals  or  U  or  F *)
 open C11model
 
 let rec pos_of_int n = if n = 1 then XH else if n land 1 = 0 then XO (pos_of_int (n lsr 1)) else XI (pos_of_int (n lsr 1))
@@ -132,7 +134,7 @@ let rec ptype = function
 let zs l = String.concat "," (List.map (fun z -> string_of_int (int_of_z z)) l)
 let store l = String.concat "," (List.map (fun (k, v) -> to_s k ^ "=" ^ string_of_int (int_of_z v)) l)
 let outcome = function
-  | Val (rets, st) -> Printf.sprintf "V:%s|%s|%s|%s" (zs rets) (zs st.strace) (store st.sfields) (store st.sglobals)
+  | Val ((rets, (fa, fb)), (gl, tr)) -> Printf.sprintf "V:%s|%s|%s|%s|%s" (zs rets) (zs tr) (store fa) (store fb) (store gl)
   | Undefined -> "U"
   | Fuel -> "F"
 
@@ -140,15 +142,17 @@ let () =
   try while true do
     let line = input_line stdin in
     (try match parse line with
-     | L [A "class"; A name; L (A "specs" :: specs); L (A "funcs" :: funcs); L (A "fields" :: fields);
+     | L [A "class"; A name; L (A "decls" :: decls); L (A "specs" :: specs); L (A "funcs" :: funcs); L (A "fields" :: fields);
           L (A "methods" :: methods); L (A "globals" :: globals); L (A "calls" :: calls)] ->
-       let fl = class_fields (List.map spec specs) in
+       let sp = List.map spec specs in
+       let fl = class_struct (List.map (function A "import" -> TImport | A "const" -> TConst | A "type" -> TType
+                                               | A "var" -> TVar sp | A "func" -> TFunc | _ -> failwith "decl") decls) in
        let fs = class_funcs (str_of name) (List.map (function L [n; k] -> (str_of (atom n), kind k) | _ -> failwith "func") funcs) in
        let c = { cfields = List.map (fun f -> str_of (atom f)) fields;
                  cmethods = List.map (function L [n; p; b] -> { mname = str_of (atom n); mparam = str_of (atom p); mbody = stmts b }
                                               | _ -> failwith "method") methods } in
        let gl = List.map (fun g -> str_of (atom g)) globals in
-       let cs = List.map (function L [m; v] -> (str_of (atom m), z_of_int (int_of_string (atom v))) | _ -> failwith "call") calls in
+       let cs = List.map (function L [o; m; v] -> (atom o = "a", (str_of (atom m), z_of_int (int_of_string (atom v)))) | _ -> failwith "call") calls in
        let fuel = nat_of_int 2000 in
        Printf.printf "FIELDS=%s FUNCS=%s CLS=%s EXPL=%s RUNC=%s RUNX=%s RUND=%s"
          (String.concat "," (List.map (fun f -> Printf.sprintf "%s:%d:%s:%s" (to_s f.fname) (if f.fembedded then 1 else 0)
@@ -157,7 +161,7 @@ let () =
                                                 | Some ((rn, rt), _) -> Printf.sprintf "%s/%s/%s" (to_s g.gname) (to_s rn) (to_s rt)
                                                 | None -> Printf.sprintf "%s//" (to_s g.gname)) fs))
          (hex (class_src c.cmethods)) (hex (explicit_src (name ^ "X") (desugar_class c).cmethods))
-         (outcome (run_class fuel c gl cs)) (outcome (run_explicit fuel c gl cs)) (outcome (run_class_dyn fuel c gl cs))
+         (outcome (run2_class fuel c gl cs)) (outcome (run2_explicit fuel c gl cs)) (outcome (run2_dyn fuel c gl cs))
      | _ -> print_string "BADINPUT"
     with Failure m -> print_string ("BADINPUT " ^ m));
     print_newline ()
